@@ -20,7 +20,13 @@
 (*   media : "none" (no nested Media) | "null" (Media = None) | "def"      *)
 (*   lists : [js, all, print] own declared lists (Media.js, Media.css[m])  *)
 (*   ext   : "true" | "false" | "list" ;  extl : the listed classes         *)
-(*   attr  : [template, js, css] each "none" | "inline" | "file" | "both"  *)
+(*   attr  : [template, js, css] each "none" | "inline" | "file" | "both", *)
+(*           or a BLANK definition: "inline-empty" / "file-empty" (the     *)
+(*           empty string / an empty file), "inline-ws" / "file-ws"        *)
+(*           (whitespace only), "both-empty" (`x = ""` and `x_file`).      *)
+(*           A blank text is a DEFINED value (the docs' way of switching   *)
+(*           an inherited script off); only an attribute that is not set   *)
+(*           (None) is "not defined".                                      *)
 (***************************************************************************)
 EXTENDS Naturals, Sequences, FiniteSets, TLC
 
@@ -115,8 +121,20 @@ Mro(K, c) ==
 (* ---- template / js / css: the pair rule ----------------------------------- *)
 Kind(K, c, p) == IF ~Real(K, c) \/ K.cls[c].plain THEN "none" ELSE K.cls[c].attr[p]
 
-\* Defining both members of a pair in one class is rejected.
-Rejected(K, c) == \E p \in Pairs : Kind(K, c, p) = "both"
+\* Which member of the pair a definition sets, and what its text is: ordinary text, the empty string,
+\* whitespace only.  Blank or not, the class DEFINES the pair.
+InlineKinds == {"inline", "inline-empty", "inline-ws"}
+FileKinds   == {"file", "file-empty", "file-ws"}
+BothKinds   == {"both", "both-empty"}
+Member(k)  == IF k \in InlineKinds THEN "inline" ELSE IF k \in FileKinds THEN "file"
+              ELSE IF k \in BothKinds THEN "both" ELSE "none"
+Content(k) == CASE k \in {"inline", "file"} -> "text"
+                [] k \in {"inline-empty", "file-empty"} -> "empty"
+                [] k \in {"inline-ws", "file-ws"} -> "ws"
+                [] OTHER -> "none"
+
+\* Defining both members of a pair in one class is rejected (a blank member is a member).
+Rejected(K, c) == \E p \in Pairs : Kind(K, c, p) \in BothKinds
 
 \* Outcome of creating class c: Python refuses a hierarchy without a C3 order (TypeError),
 \* the library refuses both members of a pair (ImproperlyConfigured).
@@ -133,6 +151,15 @@ AttrIn(m, K, p) ==            \* m: the MRO of the class
   IF idx = {} THEN [src |-> 0, kind |-> "none"]
   ELSE [src |-> m[Min(idx)], kind |-> Kind(K, m[Min(idx)], p)]
 Attr(K, c, p) == AttrIn(Mro(K, c).seq, K, p)
+\* What `C.<p>` / `C().<p>` is: [src, kind = the member that was defined, val = its text]: None when nobody
+\* defines the pair, else the text of class src - also when that text is blank ("" carries no class identity,
+\* so for val = "empty" an observation is compared by val only).
+Value(a) == [src |-> a.src, kind |-> Member(a.kind), val |-> Content(a.kind)]
+\* Rendering class c (rendered tags): the document is the template of Attr(c, "template") and carries the
+\* script of Attr(c, "js") / the style of Attr(c, "css") exactly when that text is not blank - never the
+\* script of a class further up the MRO that a nearer (blank) definition overrides.  Code: class and member.
+RCode(a) == a.src * 10 + (IF Member(a.kind) = "inline" THEN 1 ELSE 2)
+Shipped(a) == IF Content(a.kind) = "text" THEN {RCode(a)} ELSE {}
 
 (* ---- the memo machine: first accesses in any order -------------------------- *)
 \* Component.media is computed on first access and memoised per class; resolving a class
@@ -162,14 +189,21 @@ AccessAttr(c, p, via) ==
   /\ ret' = [c |-> c, a |-> p, via |-> via, media |-> <<>>, attr |-> Attr(kase, c, p)]
   /\ UNCHANGED <<kase, memo>>
 
+\* rendering reads template, js and css (and the media) of the class
+AccessRender(c, via) ==
+  /\ memo' = Fill(kase, memo, c)
+  /\ ret' = [c |-> c, a |-> "render", via |-> via, media |-> <<>>, attr |-> [p \in Pairs |-> Attr(kase, c, p)]]
+  /\ UNCHANGED kase
+
 Vias == {"cls", "inst"}
 Accessible(K) == {0} \cup {c \in 1..N(K) : ~K.cls[c].plain}      \* the classes that have .media etc.
 Access == \E c \in Accessible(kase), via \in Vias :
-            AccessMedia(c, via) \/ \E p \in Pairs : AccessAttr(c, p, via)
+            AccessMedia(c, via) \/ AccessRender(c, via) \/ \E p \in Pairs : AccessAttr(c, p, via)
 
 OrderIndependent ==
   ret # NoRet =>
     IF ret.a = "media" THEN ret.media = MediaVal(kase, ret.c)
+    ELSE IF ret.a = "render" THEN ret.attr = [p \in Pairs |-> Attr(kase, ret.c, p)]
     ELSE ret.attr = Attr(kase, ret.c, ret.a)
 MemoSound  == \A k \in DOMAIN memo : memo[k] = MediaVal(kase, k)
 MemoClosed == \A k \in DOMAIN memo : Range(Selected(kase, k)) \subseteq DOMAIN memo
